@@ -152,6 +152,10 @@ def aggStep (d : AggState) (f : List String) : AggState × String :=
       let d := { d with ownSig := ps }
       d.finish (d.node.step d.crypto (.own cur)) "ok"
     | _, _, _, _, _ => (d, "bad-op")
+  | ["own", cur, "none"] =>
+    match cur.toNat? with
+    | some cur => d.finish (d.node.step d.crypto (.own cur)) "ok"
+    | none => (d, "bad-op")
   | ["syncput", r, sg, pv, _vb, gs] =>
     match parseBeacon r sg pv, fromHex gs with
     | some b, some gs =>
